@@ -13,7 +13,7 @@ LIBC_PASSTHROUGH = {
     # name -> C name in models/libc_model.h (contract models, weaker than libc)
     'memcpy': 'v_memcpy', 'memmove': 'v_memmove', 'memset': 'v_memset', 'strlen': 'v_strlen',
     'isprint': 'v_isprint', 'islower': 'v_islower', 'isupper': 'v_isupper', 'isdigit': 'v_isdigit',
-    'isalpha': 'v_isalpha', 'isalnum': 'v_isalnum', 'isspace': 'v_isspace', 'isxdigit': 'v_isxdigit',
+    'isalpha': 'v_isalpha', 'isgraph': 'v_isgraph', 'isalnum': 'v_isalnum', 'isspace': 'v_isspace', 'isxdigit': 'v_isxdigit',
     'toupper': 'v_toupper', 'tolower': 'v_tolower', 'abort': 'v_abort', 'free': 'v_free', 'malloc': 'v_malloc',
     '__builtin_expect': 'V_BUILTIN_EXPECT', 'htons': 'v_bswap16', 'ntohs': 'v_bswap16', 'htonl': 'v_bswap32', 'ntohl': 'v_bswap32',
 }
@@ -79,8 +79,8 @@ class Models:
             self.used.add('std::swap')
             a, b = args
             ct, _ = unit.ctype_node(a)
-            if ct.startswith('struct ') and not ct.strip().endswith('*'):
-                raise Unsupported('std::swap of records (in %s)' % unit.cur)
+            if ct.startswith('struct ') and not ct.strip().endswith('*') and not self.is_model_type(ct):
+                raise Unsupported('std::swap of records (in %s)' % unit.cur)      # model containers are plain (pointer, size) structs: swapping the structs is std::swap
             return 'V_SWAP(%s, %s, %s)' % (ct, unit.expr(a), unit.expr(b))
         if name in ('min', 'max') and len(args) == 2:
             self.used.add('std::' + name)
